@@ -6,12 +6,27 @@
   bit the RFC assigns; address events / malformed messages are stored only when enabled and a
   record of which nothing is stored does not change the block (`Model.Exporter`:
   `disabled_aec_not_stored`, `disabled_mm_not_stored`, `unstored_qr_not_stored`).
-  The per-field projection and table reachability are decided on the implementation by the
-  independent reader (`Spec.Cdns.interpret`: members present, `unreachable = 0`) against the
-  RFC projection for single-bit-cleared / single-bit-alone / random masks.
+  Proved here over the block-building model `Model.Builder` (a transliteration of
+  `add_question_response_record(GenericQueryResponse)`, `add_address_event_count`, `add_malformed_message`,
+  `add_generic_qlist/rrlist` and the nine find-or-append table functions), for EVERY record sequence and
+  EVERY hint masks:
+  * `hints_honoured`         every member of every stored query/response, of every signature-table entry and
+                             of every RR-table entry is present only if its hint bit is set; address events are
+                             stored only when enabled; malformed messages and their data table only when enabled;
+  * `output_members_honour_hints`  the same stated on the raw value that is written (keys of the Q/R map);
+  * `tables_reachable`       every entry of every block table is referred to by a stored record or by another
+                             table entry – a value is put into a table only on behalf of a member that is stored
+                             (so the value of a field whose hint is cleared is in no table unless an enabled field
+                             also refers to it);
+  * `tables_closed`          every index stored anywhere addresses an existing table entry.
+  The builder model is tied to the code byte for byte: the block it builds and the model writer serialises equals
+  the block the library wrote for the same records and hints (driver `bld`; up to the order of the address-event
+  array, which the library takes from a hash map).  The preamble stating exactly the applied hints is C09's round
+  trip plus the in-place-edit sessions of the check.
 -/
 import CdnsVerif.Proofs.Keys
 import CdnsVerif.Props.C12
+import CdnsVerif.Proofs.BuilderReach
 
 namespace CdnsVerif.Props.C04
 open CdnsVerif.Proofs.Keys CdnsVerif.Model.Exporter
@@ -37,5 +52,138 @@ theorem disabled_mm_not_stored (s : ExpSt) (id : Nat) (stored : Bool) (st : Opti
 theorem unstored_qr_not_stored (s : ExpSt) (id : Nat) (st : Option Nat) :
     C12.allQrs (step hdr bsz s (.qr id false st)).1 = C12.allQrs s := by
   rw [C12.step_allQrs]; simp [C12.acceptedQr]
+
+/-! ### the block-building model -/
+
+open CdnsVerif.Model.Builder CdnsVerif.Generated in
+/-- Everything stored in a block built under hints `h` honours `h`. -/
+theorem hints_honoured (h : Hints) (recs : List Rec) : Honours h (build h recs) := honours_build h recs
+
+open CdnsVerif.Model.Builder in
+/-- No table entry without a referrer: nothing is put into a table on behalf of a member that is not stored. -/
+theorem tables_reachable (h : Hints) (recs : List Rec) : Reach (build h recs) := (inv_build h recs).2
+
+open CdnsVerif.Model.Builder in
+/-- Every stored index addresses an existing table entry. -/
+theorem tables_closed (h : Hints) (recs : List Rec) : Closed (build h recs) := (inv_build h recs).1
+
+open CdnsVerif.Model.Builder CdnsVerif.Generated in
+/-- address events are not stored (and nothing is added to the address table for them) while their hint is off -/
+theorem disabled_aec_untouched (h : Hints) (g : GAEC) (st : Option Stats) (b : Blk)
+    (hoff : on h.odh OtherDataHintsMask.address_event_counts = false) : addAEC h g st b = setStats b st := by
+  simp [addAEC, hoff]
+
+open CdnsVerif.Model.Builder CdnsVerif.Generated in
+theorem disabled_mm_untouched (h : Hints) (g : GMM) (st : Option Stats) (b : Blk)
+    (hoff : on h.odh OtherDataHintsMask.malformed_messages = false) : addMM h g st b = setStats b st := by
+  simp [addMM, hoff]
+
+open CdnsVerif.Model.Builder CdnsVerif.Model.Schema CdnsVerif.Generated in
+/-- the hint mask that governs a key of the Q/R map (keys 0–10; the extended members 11/12 are governed section by section) -/
+def qrMask (k : Int) : Option Int :=
+  if k = QueryResponseMapIndex.time_offset then some QueryResponseHintsMask.time_offset
+  else if k = QueryResponseMapIndex.client_address_index then some QueryResponseHintsMask.client_address_index
+  else if k = QueryResponseMapIndex.client_port then some QueryResponseHintsMask.client_port
+  else if k = QueryResponseMapIndex.transaction_id then some QueryResponseHintsMask.transaction_id
+  else if k = QueryResponseMapIndex.qr_signature_index then some QueryResponseHintsMask.qr_signature_index
+  else if k = QueryResponseMapIndex.client_hoplimit then some QueryResponseHintsMask.client_hoplimit
+  else if k = QueryResponseMapIndex.response_delay then some QueryResponseHintsMask.response_delay
+  else if k = QueryResponseMapIndex.query_name_index then some QueryResponseHintsMask.query_name_index
+  else if k = QueryResponseMapIndex.query_size then some QueryResponseHintsMask.query_size
+  else if k = QueryResponseMapIndex.response_size then some QueryResponseHintsMask.response_size
+  else if k = QueryResponseMapIndex.response_processing_data then some QueryResponseHintsMask.response_processing_data
+  else none
+
+open CdnsVerif.Model.Builder CdnsVerif.Model.Schema CdnsVerif.Model.Timestamp CdnsVerif.Generated in
+/-- On the value that is written: a key of the Q/R map is present only if its hint bit is set. -/
+theorem output_members_honour_hints (h : Hints) (q : QRec) (hq : QHonours h q) (earliest : Ts) (tps : Nat) (ms : List (Int × Val))
+    (hv : QRec.toVal earliest tps q = .record ms) (k : Int) (v : Val) (hk : (k, v) ∈ ms) (m : Int) (hm : qrMask k = some m) :
+    on h.qrh m = true := by
+  obtain ⟨h0, h1, h2, h3, h4, h5, h6, h7, h8, h9, h10, _, _⟩ := hq
+  simp only [QRec.toVal, Val.record.injEq] at hv
+  subst hv
+  have memN : ∀ (key : Int) (o : Option Nat), (k, v) ∈ optN key o → k = key ∧ o.isSome = true := by
+    intro key o hmem; cases o <;> simp [optN] at hmem ⊢; exact hmem.1
+  have memI : ∀ (key : Int) (o : Option Int), (k, v) ∈ optI key o → k = key ∧ o.isSome = true := by
+    intro key o hmem; cases o <;> simp [optI] at hmem ⊢; exact hmem.1
+  have memS : ∀ (key : Int) (o : Option Spec.Cbor.Bytes), (k, v) ∈ optS key o → k = key := by
+    intro key o hmem; cases o <;> simp [optS] at hmem ⊢; exact hmem.1
+  have memV : ∀ (key : Int) (o : Option Val), (k, v) ∈ optV key o → k = key ∧ o.isSome = true := by
+    intro key o hmem; cases o <;> simp [optV] at hmem ⊢; exact hmem.1
+  simp only [List.mem_append] at hk
+  rcases hk with (((((((((((((((hk | hk) | hk) | hk) | hk) | hk) | hk) | hk) | hk) | hk) | hk) | hk) | hk) | hk) | hk) | hk)
+  · obtain ⟨rfl, hs⟩ := memN _ _ hk
+    have e : qrMask QueryResponseMapIndex.time_offset = some QueryResponseHintsMask.time_offset := by decide
+    rw [e] at hm; cases hm
+    apply h0
+    cases hqt : q.ts <;> simp [hqt] at hs ⊢
+  · obtain ⟨rfl, hs⟩ := memN _ _ hk
+    have e : qrMask QueryResponseMapIndex.client_address_index = some QueryResponseHintsMask.client_address_index := by decide
+    rw [e] at hm; cases hm; exact h1 hs
+  · obtain ⟨rfl, hs⟩ := memN _ _ hk
+    have e : qrMask QueryResponseMapIndex.client_port = some QueryResponseHintsMask.client_port := by decide
+    rw [e] at hm; cases hm; exact h2 hs
+  · obtain ⟨rfl, hs⟩ := memN _ _ hk
+    have e : qrMask QueryResponseMapIndex.transaction_id = some QueryResponseHintsMask.transaction_id := by decide
+    rw [e] at hm; cases hm; exact h3 hs
+  · obtain ⟨rfl, hs⟩ := memN _ _ hk
+    have e : qrMask QueryResponseMapIndex.qr_signature_index = some QueryResponseHintsMask.qr_signature_index := by decide
+    rw [e] at hm; cases hm; exact h4 hs
+  · obtain ⟨rfl, hs⟩ := memN _ _ hk
+    have e : qrMask QueryResponseMapIndex.client_hoplimit = some QueryResponseHintsMask.client_hoplimit := by decide
+    rw [e] at hm; cases hm; exact h5 hs
+  · obtain ⟨rfl, hs⟩ := memI _ _ hk
+    have e : qrMask QueryResponseMapIndex.response_delay = some QueryResponseHintsMask.response_delay := by decide
+    rw [e] at hm; cases hm; exact h6 hs
+  · obtain ⟨rfl, hs⟩ := memN _ _ hk
+    have e : qrMask QueryResponseMapIndex.query_name_index = some QueryResponseHintsMask.query_name_index := by decide
+    rw [e] at hm; cases hm; exact h7 hs
+  · obtain ⟨rfl, hs⟩ := memN _ _ hk
+    have e : qrMask QueryResponseMapIndex.query_size = some QueryResponseHintsMask.query_size := by decide
+    rw [e] at hm; cases hm; exact h8 hs
+  · obtain ⟨rfl, hs⟩ := memN _ _ hk
+    have e : qrMask QueryResponseMapIndex.response_size = some QueryResponseHintsMask.response_size := by decide
+    rw [e] at hm; cases hm; exact h9 hs
+  · obtain ⟨rfl, hs⟩ := memV _ _ hk
+    have e : qrMask QueryResponseMapIndex.response_processing_data = some QueryResponseHintsMask.response_processing_data := by decide
+    rw [e] at hm; cases hm
+    apply h10
+    cases hr : q.rpd <;> simp [hr] at hs ⊢
+  · obtain ⟨rfl, _⟩ := memV _ _ hk
+    have e : qrMask QueryResponseMapIndex.query_extended = none := by decide
+    rw [e] at hm; cases hm
+  · obtain ⟨rfl, _⟩ := memV _ _ hk
+    have e : qrMask QueryResponseMapIndex.response_extended = none := by decide
+    rw [e] at hm; cases hm
+  · have := memS _ _ hk; subst this
+    have e : qrMask QueryResponseMapIndex.asn = none := by decide
+    rw [e] at hm; cases hm
+  · have := memS _ _ hk; subst this
+    have e : qrMask QueryResponseMapIndex.country_code = none := by decide
+    rw [e] at hm; cases hm
+  · obtain ⟨rfl, _⟩ := memI _ _ hk
+    have e : qrMask QueryResponseMapIndex.round_trip_time = none := by decide
+    rw [e] at hm; cases hm
+
+/-! Non-vacuity: with only the client-port hint set, a fully populated record stores the port and nothing else, and no
+    table gets an entry; with the signature hints set, the signature and the tables it needs appear. -/
+open CdnsVerif.Model.Builder in
+def sampleG : GQR := {
+  ts := some ⟨10, 5⟩
+  clientIp := some [10, 0, 0, 1]
+  clientPort := some 53
+  serverIp := some [10, 0, 0, 2]
+  classtype := some (1, 1)
+  queryName := some [3, 119, 119, 119, 0]
+  opcode := some 0
+  queryAnswers := some [⟨[1, 97, 0], 1, 1, some 300, some [1, 2, 3, 4]⟩] }
+
+open CdnsVerif.Model.Builder in
+example : (build ⟨4, 0, 0, 0, 1000⟩ [.qr sampleG none]).qrs = [{ cport := some 53 }] ∧
+    (build ⟨4, 0, 0, 0, 1000⟩ [.qr sampleG none]).ip = [] ∧ (build ⟨4, 0, 0, 0, 1000⟩ [.qr sampleG none]).nr = [] := by decide
+
+open CdnsVerif.Model.Builder in
+example : (build ⟨16 + 4096, 1 + 256, 1, 0, 1000⟩ [.qr sampleG none]).sig = [{ sai := some 0, cti := some 0 }] ∧
+    (build ⟨16 + 4096, 1 + 256, 1, 0, 1000⟩ [.qr sampleG none]).rr = [{ name := 0, ct := 0, ttl := some 300, rdata := none }] := by decide
 
 end CdnsVerif.Props.C04
